@@ -191,7 +191,9 @@ func (s *c17Sched) goStates() map[uint64]string {
 
 func c17LockWait(state string) bool {
 	switch state {
-	case "sync.Mutex.Lock", "sync.RWMutex.Lock", "sync.RWMutex.RLock", "semacquire":
+	// not "semacquire": that is also the state of a goroutine which wants to
+	// start a garbage collection while the world is stopped for the dump
+	case "sync.Mutex.Lock", "sync.RWMutex.Lock", "sync.RWMutex.RLock":
 		return true
 	}
 	return false
@@ -1552,12 +1554,9 @@ func TestVerif_C17_ConcurrentGated(t *testing.T) {
 		if sc.Idx%nshards != shard {
 			continue
 		}
-		maxRuns := kit.N(90, 1500)
-		if len(sc.Clients) > 2 {
-			maxRuns = kit.N(60, 1500)
-		}
-		if sc.Cache != "fresh" {
-			maxRuns = kit.N(40, 1500)
+		maxRuns := kit.N(30, 1500)
+		if len(sc.Clients) > 2 || sc.Cache != "fresh" {
+			maxRuns = kit.N(15, 1500)
 		}
 		ex := &kit.Explorer{MaxPreempt: 2, MaxRuns: maxRuns}
 		stop := false
@@ -1576,7 +1575,7 @@ func TestVerif_C17_ConcurrentGated(t *testing.T) {
 		if stop {
 			continue
 		}
-		for q := 0; q < kit.N(6, 120); q++ {
+		for q := 0; q < kit.N(10, 150); q++ {
 			id := fmt.Sprintf("lmc:%d:%d:r:%d", shard, sc.Idx, q)
 			c17COne(ctx, r, sc, id, c17CRandPol(seed, sc, q), nil)
 		}
@@ -1614,7 +1613,7 @@ func TestVerif_C17_ConcurrentFree(t *testing.T) {
 	defer r.Write(t)
 	ctx := context.Background()
 	scens := c17CScenarios(seed)
-	iters := kit.N(12, 150)
+	iters := kit.N(30, 400)
 	if os.Getenv("VERIF_RACE") != "" {
 		iters = 40
 	}
